@@ -23,7 +23,7 @@ LEVEL = "exploration"
 REDUCTIONS = {"average", "average_split", "fsc", "group_average", "group_average_split"}
 PER_MOLECULE = {
     "asnumpy", "load", "load_iter", "construct_dask", "align", "align_multi_templates", "landscape",
-    "score", "shared_model", "group_align", "apply", "group_apply", "masked_difference_stack",
+    "score", "shared_model", "group_align", "apply", "group_apply", "masked_difference_stack", "cutoff_scan",
 }
 
 
@@ -55,7 +55,7 @@ def gen_schedule(rng: random.Random, fault_class):
     }
 
 
-SWEEP_KINDS = ["align", "align_multi_templates", "score", "landscape", "shared_model", "group_align", "masked_difference_stack"]
+SWEEP_KINDS = ["align", "align_multi_templates", "score", "landscape", "shared_model", "group_align", "masked_difference_stack", "cutoff_scan"]
 
 
 def generate(seed: int, tier: str):
